@@ -55,8 +55,8 @@ CLAIMED = {
  'C12': dict(
     text='Slice: multipart_parser::consume (all states) is memory safe for every chunk, keeps a well-formed (state, position) pair across chunks, reports a refusing file sink as no_room_left and never writes after it, '
          'and satisfies the conservation law bytes-in-file + pending partial boundary match == bytes consumed (unbounded, loop contracts); request::on_content_start refuses negative/over-limit Content-Length with 400/413; '
-         'parse_form_urlencoded and util::urldecode are memory safe and exact per token. Exact reconstruction / first boundary occurrence / chunking independence: bounded stand-in (body <= 7 bytes). read_file (the copy of a form-field part into request().post()) returns the whole part from its first byte wherever the stream position was left.',
-    note=TRUST + 'Not covered: part-header parsing (process_header, parse_content_disposition: std::string iterator code), temp-file spill, content filters, the 400/413 logic of on_content_progress.',
+         'parse_form_urlencoded and util::urldecode are memory safe and exact per token. Exact reconstruction / first boundary occurrence / chunking independence: bounded stand-in (body <= 7 bytes). read_file (the copy of a form-field part into request().post()) returns the whole part from its first byte wherever the stream position was left. The multipart loop of request::on_content_progress: a chunk is either consumed completely with every parser event forwarded exactly once and in order (seek, then the size check against the content-length limit, then the filter call-back), the parser\'s eof coinciding with the declared length in both directions, or refused - 413 exactly for no_room_left and for a form field over the limit, 400 for everything malformed, early or late; size_ok limits form fields (no MIME type) and not files.',
+    note=TRUST + 'Not covered: part-header parsing (process_header, parse_content_disposition: std::string iterator code), temp-file spill, the tail of on_content_progress (hand-over of finished parts, raw content filter, exception translation).',
     design='4 (C01/C02/C12)', technique='cbmc code contracts (dfcc) + nested loop contracts with a conservation invariant; bounded unwinding for byte-exactness'),
  'C13': dict(
     text='is_file_prefix is proved (unbounded) to match aliases / the document root only on whole path components. normalize_path is decided by a BOUNDED stand-in: for every request path of up to 8 bytes '
@@ -136,15 +136,15 @@ CLAIMED = {
  'C18': dict(
     text='read_from_file is proved against EVERY file content (hence every torn state of every save over every earlier state): a load succeeds only if the file holds a complete 16-byte header and '
          '`size` payload bytes, the stored deadline is not in the past, and the checksum verified is that of exactly those payload bytes; on failure the caller\'s data and timeout are untouched. '
-         'read_all delivers exactly the next n bytes or fails; read_timestamp (used by gc) never reports a live session as dead.',
+         'read_all delivers exactly the next n bytes or fails; read_timestamp (used by gc) never reports a live session as dead. save_to_file writes the 16-byte header {deadline, CRC-32 of exactly the data, size} first and the data second, nothing else, and reports every failed write.',
     note=TRUST + 'POSIX read/lseek/time are stubs with regular-file semantics; zlib CRC-32 is an arbitrary fixed value of the payload: "a CRC-consistent record is one some save wrote" is the CRC collision assumption. '
-         'Size fields >= 2^31 are outside the contract (observation recorded). Not covered: writer ordering, fsync/sector model, locking, unlink, directory walk of gc.',
+         'Size fields >= 2^31 are outside the contract (observation recorded). Not covered: fsync/sector model of the crash, write_all (observation: does not advance after a short write), locking, unlink, directory walk of gc.',
     design='4 (C18)', technique='cbmc code contracts (dfcc) with a ghost file of arbitrary content; loop contract for read_all'),
  'C20': dict(
     text='Slice: booster::regex::match (both overloads) reports a match only if pcre_exec on the ANCHORED pattern compiled from "(?:p)\\z" succeeded with offsets 0..length of the subject (whole string, never a prefix), '
          'and hands on exactly the offsets pcre reported for each group; url_dispatcher::dispatch executes the first handler in registration order whose patterns match, tries none after it, and returns false only if none matches. option::matches selects a handler only if the WHOLE path matched its pattern and, with a method filter, the whole request method equals the filter word or is matched by the filter expression as a whole (regex_match, never regex_search); nothing that matches is turned away.',
     note=TRUST + 'pcre_exec is a stub with the PCRE 8 API contract; that "(?:p)\\z" cannot match short of the end is PCRE semantics (assumed). options[i]->dispatch is an oracle array (<= 16 options). '
-         'Not covered: mount points, applications pool, url_mapper and the mapper/dispatcher round trip.',
+         'mount_point::match is under contract over pattern oracles: selected only if EVERY configured pattern matched the entire respective string, sub-path = the selected part or capture group_ of its own match, nothing matching is turned away. Not covered: applications pool scan order, url_mapper and the mapper/dispatcher round trip.',
     design='4 (C20)', technique='cbmc code contracts (dfcc) + loop contracts with ghost-recorded pcre_exec arguments / dispatch oracle'),
  'C19': dict(
     text='The chunk reader/writer of cppcms::archive (next_chunk_size, read_chunk, read_chunk_as_string, write_chunk, eof) and the POD-vector load body are under contract: '
